@@ -94,6 +94,12 @@ def run(rep):
             items.append({"line": line, "text": text, "cfg": cfg, "lang": "en", "expected": c["expected"], "variant": var, "feat": feat_of(line), "class_fn": cls, "nontrivial": nz})
     forms.replay(rep, items, "c05.gen")
     random_trace(rep, curs, 3000 if quick else 200000)
+    if forms.CAPTURE is None:
+        # the operand of a phrase may be a name bound to the number or the amount of money (C03 says what a name denotes, this property
+        # what the phrase computes): `price = 200 try` / `10% off price` is money in the same currency
+        from props import c03
+        import sys
+        c03.phrases_through_variables(rep, 150 if quick else 1500, modules=((sys.modules[__name__], "C05"),), min_forms=2, tag="c05.via")
 
 
 def rq(rng, lim=500):
